@@ -21,6 +21,7 @@ import (
 	"os/exec"
 	"path/filepath"
 	"runtime/debug"
+	"runtime/pprof"
 	"strconv"
 	"strings"
 	"sync"
@@ -90,8 +91,15 @@ func childMain() {
 	}
 
 	initFamilies(os.Getenv("C04_TIER"))
+	if pp := os.Getenv("C04_PPROF"); pp != "" {
+		f, _ := os.Create(pp)
+		pprof.StartCPUProfile(f)
+		defer pprof.StopCPUProfile()
+	}
 	w := bufio.NewWriter(out)
 	enc := json.NewEncoder(w)
+	w.WriteString("ready\n")
+	w.Flush()
 	sc := bufio.NewScanner(in)
 	sc.Buffer(make([]byte, 1<<16), 1<<20)
 	for sc.Scan() {
@@ -194,6 +202,7 @@ type child struct {
 	inPipe interface{ Close() error }
 	lines  chan string
 	stderr *headTail
+	served int
 }
 
 var theChild *child
@@ -219,6 +228,19 @@ func startChild() *child {
 		}
 		close(c.lines)
 	}()
+	// wait until the child has built its tables (not part of any case's time)
+	select {
+	case ln, ok := <-c.lines:
+		if !ok || ln != "ready" {
+			cmd.Process.Kill()
+			cmd.Wait()
+			panic("executor child did not start: " + ln + "\n" + ht.String())
+		}
+	case <-time.After(300 * time.Second):
+		cmd.Process.Kill()
+		cmd.Wait()
+		panic("executor child did not start in 300s")
+	}
 	return c
 }
 
@@ -268,10 +290,17 @@ func remote(fam string, idx uint64, timeout time.Duration) (res runRes) {
 			}
 		}()
 	}
+	if theChild != nil && theChild.served >= 3000 {
+		// recycle: leaked goroutines / descriptors of earlier cases must not accumulate
+		theChild.inPipe.Close()
+		theChild.cmd.Wait()
+		theChild = nil
+	}
 	if theChild == nil {
 		theChild = startChild()
 	}
 	c := theChild
+	c.served++
 	fmt.Fprintf(c.in, "%s %d\n", fam, idx)
 	c.in.Flush()
 	tm := time.NewTimer(timeout)
